@@ -18,9 +18,9 @@ MANIFEST = {
 
 INVARIANTS = ["C01_User", "C01_Group"]
 PROPERTIES = []
-QUICK = ['chain2', 'nest_s', 'grp2', 'sib']
-THOROUGH = ['chain2', 'nest_s', 'grp2', 'sib', 'upd2', 'diamond', 'clean', 'jpim_s', 'retry_s', 'nest', 'jpim', 'retry']
-FINDINGS = [("toctou", "chain2", ["C01_User"]), ("ooc", "upd2", ["C01_User"])]
+QUICK = ['chain2', 'nest_s', 'grp2', 'nestc', 'alw']
+THOROUGH = ['chain2', 'nest_s', 'grp2', 'nestc', 'alw', 'sib', 'upd2', 'diamond', 'clean', 'jpim_s', 'retry_s', 'nest', 'jpim', 'retry']
+FINDINGS = [("toctou", "chain2", ["C01_User"]), ("ooc", "ooc2", ["C01_User"])]
 
 
 def run(ctx):
